@@ -29,6 +29,9 @@ pub fn value_pool() -> Vec<DataValue> {
         DataValue::Int(isize::MIN),
         DataValue::Float(5.0),
         DataValue::Float(4.5),
+        // beyond 2^53 neighbouring integers are the same f64
+        DataValue::Int(9007199254740993),
+        DataValue::Float(9007199254740992.0),
         DataValue::Float(-0.0),
         DataValue::Float(1e300),
         // neighbours closer than f64::EPSILON, tiny and infinite values: equality is exact
@@ -64,6 +67,11 @@ pub fn base_operators() -> Vec<DataOperator<'static>> {
         DataOperator::Equals(Cow::Borrowed("x")),
         DataOperator::Equals(Cow::Borrowed("")),
         DataOperator::Equals(Cow::Borrowed("4.5")),
+        // numeric strings that are not integer literals: an Int value is compared as an integer, exactly
+        DataOperator::Equals(Cow::Borrowed("5.0")),
+        DataOperator::Equals(Cow::Borrowed("5e0")),
+        DataOperator::Equals(Cow::Borrowed("5.")),
+        DataOperator::Equals(Cow::Borrowed("9007199254740992")),
         DataOperator::Equals(Cow::Borrowed("2024-02-29T23:59:59+00:00")),
         DataOperator::EqualsInt(5),
         DataOperator::EqualsInt(0),
@@ -484,7 +492,7 @@ fn scan_checks(h: &History, rep: &mut Report, rng: &mut Rng) {
 }
 
 pub fn run(p: &Params, rep: &mut Report) {
-    rep.rule = "seeded histories of dataset creation, insert_data, annotate (data with and without ids, by id/handle, repeated (key,value) pairs), remove_data, remove_key; after every operation: returned data handles vs the model's exactly-once prediction, dedup invariants on the live sets, key.data()/find_data/test_data/data_by_value vs a scan of all data (4 any-combinations x ~15 operators), and the filter adaptors over the data and the annotations of the whole store (filter_key_handle_value, filter_key+filter_value, filter_set+..., annotations().filter_key_value) vs a scan; at the end of half of the histories a key is declared without data (low-level insert) and removed again, and the comparisons are repeated; plus the full cross product of a 31-value pool x ~100 operators (every variant, Not, And/Or nested) against a reference written from the doc comments. distinct_nontrivial = distinct (value type, operator) cells where the reference says the test passes + distinct (route, key?, operator) searches with non-empty result".into();
+    rep.rule = "seeded histories of dataset creation, insert_data, annotate (data with and without ids, by id/handle, repeated (key,value) pairs), remove_data, remove_key; after every operation: returned data handles vs the model's exactly-once prediction, dedup invariants on the live sets, key.data()/find_data/test_data/data_by_value vs a scan of all data (4 any-combinations x ~15 operators), and the filter adaptors over the data and the annotations of the whole store (filter_key_handle_value, filter_key+filter_value, filter_set+..., annotations().filter_key_value) vs a scan; at the end of half of the histories a key is declared without data (low-level insert) and removed again, and the comparisons are repeated; plus the full cross product of a 33-value pool x ~105 operators (numeric strings that are not integer literals, integers beyond 2^53) (every variant, Not, And/Or nested) against a reference written from the doc comments. distinct_nontrivial = distinct (value type, operator) cells where the reference says the test passes + distinct (route, key?, operator) searches with non-empty result".into();
     rep.assumptions = vec![
         "NaN is excluded (IEEE inequality makes 'same value' undefined)".into(),
         "Bool vs Equals(string), Int vs EqualsFloat and Float vs EqualsInt are not documented and not judged".into(),
